@@ -273,6 +273,34 @@ def explore(chk):
                                      "sami -> sami: the characters a class marks italic / bold / underline changed")
         except Exception as e:
             chk.property_failure(dict(case, error=repr(e)[:300]), "SAMI write / read raised on a span styled by a class")
+    # ---- SAMI spans / divs whose attributes say nothing about style (none at all, an alignment only, an empty style): the
+    #      nodes read are balanced -- no style node closes what was never opened
+    ssub = chk.sub("sami_spans_without_style")
+    for k_ in range(20 if chk.tier == "quick" else 400):
+        attr = ssub.choice(["", ' Style="text-align:right;"', ' style=""', ' Style="text-align:center"', ' id="x1"', ' Style="color:yellow;"'])
+        tag = ssub.choice(["SPAN", "span", "DIV"])
+        inner = "<%s%s>right</%s>" % (tag, attr, tag)
+        wrap = ssub.choice(["%s", "<i>%s</i>", "<b>bold %s more</b>", "%s <u>u</u>"])
+        body = "left " + (wrap % inner) + " end"
+        doc = ('<SAMI><HEAD><STYLE TYPE="text/css"><!--\n.ENCC { Name: English; lang: en-US; }\n--></STYLE></HEAD><BODY>\n'
+               '<SYNC start=1000><P Class=ENCC>%s</P></SYNC>\n<SYNC start=3000><P Class=ENCC>&nbsp;</P></SYNC>\n</BODY></SAMI>\n') % body
+        case = {"document": doc}
+        chk.case(key=("sami-plain-span", doc), nontrivial=True); chk.count("sami_spans_without_style")
+        try:
+            rs = core.POOL.get(pycaption.SAMIReader).read(doc)
+        except Exception as e:
+            chk.property_failure(dict(case, error=repr(e)[:300]), "SAMI reader raised on a span without style"); continue
+        for c_ in rs.get_captions(rs.get_languages()[0]):
+            depth = 0; bad = False
+            for n in c_.nodes:
+                if n.type_ == CaptionNode.STYLE:
+                    depth += 1 if n.start else -1
+                    if depth < 0:
+                        bad = True; break
+            if bad or depth != 0:
+                chk.property_failure(dict(case, read_nodes=str(capio.obs_nodes(c_.nodes))[:600]),
+                                     "SAMI reader: style nodes of a caption are not balanced (a node closes a style that was never opened, or one stays open)")
+                break
     # ---- a span that names a class of the caption set AND is italic by itself, through the DFXP writer and reader: whatever the
     #      class says, the characters stay italic
     csub = chk.sub("class_and_inline_italics")
